@@ -45,3 +45,54 @@ func zzH_T_sched() {
 	zz.Assert(total == a+b+1000, "scheduler self-test: values transferred and summed")
 	zz.Reach("sched ok")
 }
+
+// zzH_T_limiter: the real base/limiter under the scheduler.
+func zzH_T_limiter() {
+	l := zzNewLimiter()
+	l.Release(2)
+	done := make(chan int, 2)
+	for k := 0; k < 2; k++ {
+		go func() {
+			if err := l.Acquire(zzBG(), 2); err != nil {
+				panic(err)
+			}
+			l.Release(2)
+			done <- 1
+		}()
+	}
+	<-done
+	<-done
+	zz.Reach("limiter ok")
+}
+
+func zzH_T_lim1() {
+	l := zzNewLimiter()
+	l.Release(2)
+	zz.Reach("released")
+	if err := l.Acquire(zzBG(), 2); err != nil {
+		panic(err)
+	}
+	zz.Reach("acquired")
+}
+
+func zzH_T_lim0() {
+	c := make(chan int, 1)
+	w := make(chan struct{}, 1)
+	w <- struct{}{}
+	var nilc chan struct{}
+	select {
+	case <-w:
+		zz.Reach("got waiter")
+	case <-nilc:
+	}
+	n := 2
+	for {
+		select {
+		case c <- n:
+			zz.Reach("sent")
+			return
+		case have := <-c:
+			n += have
+		}
+	}
+}
